@@ -1,5 +1,7 @@
 import Propka.Model.PairLoop
 import Propka.Props.C01
+import Propka.Proofs.Scoring
+import Mathlib.Logic.Function.Basic
 /-! # C06 — residue and chain labels identify residues but never influence the numbers -/
 namespace Propka.PairLoop
 
@@ -105,3 +107,53 @@ theorem group_relabel_invariant (T : Tables) (a : AtomInfo) (c : String) (n : In
   | none => rfl
   | some cls => rfl
 end Propka.Groups
+
+/-! ## the whole scoring phase (`Model/Scoring.lean`) under relabelling -/
+namespace Propka.Scoring
+open Function
+
+/-- a relabelling of what identifies a group: the printed label and the residue number are renamed, nothing else -/
+def relabelId (lab : String → String) (num : Int → Int) (i : GroupId) : GroupId := ⟨lab i.label, i.protein, num i.resNum⟩
+
+set_option linter.unusedSectionVars false in
+/-- **Labels identify but never influence.**  Scoring reads chain identifiers, residue numbers and printed labels only
+    through three equality tests of the environment (same residue in the desolvation loop, `Group.__eq__` in the coupling
+    penalties, label equality when determinants towards penalised groups are removed).  Renaming residue keys and labels
+    by injective maps leaves the environment - hence every number `score` produces - unchanged. -/
+theorem envOf_relabel_invariant {α : Type} [Add α] [Sub α] [Mul α] [Div α] [NatCast α] [Trig α]
+    (ρ : ResKey → ResKey) (hρ : Injective ρ) (lab : String → String) (hlab : Injective lab) (num : Int → Int) (hnum : Injective num)
+    (apos gpos : Nat → Angle.P3 α) (ares gres : Nat → ResKey) (gid : Nat → GroupId) :
+    envOf apos gpos (fun a => ρ (ares a)) (fun g => ρ (gres g)) (fun g => relabelId lab num (gid g)) = envOf apos gpos ares gres gid := by
+  unfold envOf
+  congr 1
+  · funext g a
+    rw [Bool.eq_iff_iff]
+    simp only [Bool.and_eq_true, beq_iff_eq]
+    constructor
+    · intro h; have := hρ (Prod.ext h.1 h.2); rw [this]; exact ⟨rfl, rfl⟩
+    · intro h; have : ares a = gres g := Prod.ext h.1 h.2; rw [this]; exact ⟨rfl, rfl⟩
+  · funext g h
+    rw [Bool.eq_iff_iff]
+    simp only [relabelId, Bool.and_eq_true, Bool.or_eq_true, beq_iff_eq, hlab.eq_iff, hnum.eq_iff]
+  · funext g h
+    rw [Bool.eq_iff_iff]
+    simp only [relabelId, beq_iff_eq, hlab.eq_iff]
+
+set_option linter.unusedSectionVars false in
+theorem score_relabel_invariant {α : Type} [Add α] [Sub α] [Mul α] [Div α] [Neg α] [NatCast α] [LT α] [LE α]
+    [DecidableLT α] [DecidableLE α] [Max α] [Min α] [BEq α] [Inhabited α] [Trig α]
+    (ρ : ResKey → ResKey) (hρ : Injective ρ) (lab : String → String) (hlab : Injective lab) (num : Int → Int) (hnum : Injective num)
+    (p : SP α) (apos gpos : Nat → Angle.P3 α) (ares gres : Nat → ResKey) (gid : Nat → GroupId) (atoms : Tab AtomT) (groups : Tab (GroupT α)) :
+    score p (envOf apos gpos (fun a => ρ (ares a)) (fun g => ρ (gres g)) (fun g => relabelId lab num (gid g))) atoms groups
+      = score p (envOf apos gpos ares gres gid) atoms groups := by
+  rw [envOf_relabel_invariant ρ hρ lab hlab num hnum]
+
+/-- not vacuous: shifting every residue number by 1000 and renaming chain `A` to `Q` is such a relabelling -/
+example : Injective (fun k : ResKey => (k.1 + 1000, if k.2 = "A" then "Q" else if k.2 = "Q" then "A" else k.2)) := by
+  intro a b h
+  simp only [Prod.mk.injEq] at h
+  obtain ⟨h1, h2⟩ := h
+  refine Prod.ext (by omega) ?_
+  by_cases ha : a.2 = "A" <;> by_cases hb : b.2 = "A" <;> by_cases ha' : a.2 = "Q" <;> by_cases hb' : b.2 = "Q" <;> simp_all
+
+end Propka.Scoring
